@@ -273,4 +273,72 @@ PLANS["C20"] = {
     "assumptions": ["outputs rendered with Display; run report = updated/can_stop/iterations/matches per rule"],
 }
 
+
+def concmon(bin_dir, mon, label, seed, tier, n=None, timeout=3000):
+    argv = [os.path.join(bin_dir, "concmon"), mon, "--seed", str(seed), "--tier", tier, "--out", "{out}"]
+    if n is not None:
+        argv += ["--n", str(n)]
+    return {"label": label, "argv": argv, "env": {}, "timeout": timeout, "on_crash": "violation"}
+
+
+def miri_jobs(prop, tests, nseeds, seed):
+    js = []
+    for t in tests:
+        for k in range(nseeds):
+            js.append({"label": f"miri-{t}-{k}", "argv": ["python3", os.path.join(VERIF, "lib", "miri_job.py"), "concmon", "miri", t,
+                                                            str(seed * 100 + k), str(seed * 1000 + k), "{out}", prop],
+                       "env": {}, "timeout": 3400, "on_crash": "inconclusive"})
+    return js
+
+
+def c17_jobs(tier, seed, bin_dir, replay):
+    q = tier == "quick"
+    js = [concmon(bin_dir, "uf-seq", "uf-seq", seed, tier)]
+    k = 4 if q else 16
+    per = 250 if q else 4000
+    js += [concmon(bin_dir, "uf-conc", f"uf-conc-{i}", seed * 100 + i, tier, n=per) for i in range(k)]
+    js += miri_jobs("C17", ["uf_sequential_small", "uf_concurrent_histories"], 6 if q else 64, seed)
+    return js
+
+
+def c19_jobs(tier, seed, bin_dir, replay):
+    q = tier == "quick"
+    k = 4 if q else 16
+    js = [concmon(bin_dir, "pool", f"pool-{i}", seed * 100 + i, tier, n=(300 if q else 3000)) for i in range(k)]
+    js += [concmon(bin_dir, "shared", f"shared-{i}", seed * 100 + i, tier, n=(240 if q else 3000)) for i in range(k)]
+    js += miri_jobs("C19", ["pool_spawn_trees", "shared_structures", "rol_three_roles"], 6 if q else 64, seed)
+    js += miri_jobs("C19", ["witness_pool_drop_aliasing"], 1, seed)
+    return js
+
+
+PLANS["C17"] = {
+    "jobs": c17_jobs,
+    "packages": ("concmon",),
+    "engine": "concmon",
+    "parallel": 12,
+    "level": "exploration",
+    "rule": "sequential: every op sequence (union/find/find_naive/reset) up to a length bound over 2-5 ids exhaustively, plus random longer ones, compared with a partition model after every op. concurrent: recorded histories of 2-8 threads on a hot id space with resizes and armed perturbation hooks, checked offline against necessary linearizability conditions of the monotone union-find; the same scenarios scaled down under Miri (UB/data-race interpreter, one scheduler seed per process). distinct_nontrivial = distinct random sequences + distinct overlapping interleavings + clean Miri executions.",
+    "technique": "model-based sequence checking (exhaustive small bounds) + recorded concurrent histories with an offline linearizability-condition checker + Miri many-seeds",
+    "level_text": "Sequential UF: exhaustive for small bounds, random beyond, against a partition model after every op (min-id representative, find does not change the partition). Concurrent UF: thousands of short histories with real overlap (perturbation hooks between load and CAS and around Buffer resize), each checked for: final partition = closure of issued unions with min roots, link-once, and per-query bounds from the unions invoked-before-return / returned-before-call. Miri runs the same scenarios for UB and data races.",
+    "level_note": "The concurrent conditions are necessary, not sufficient, for linearizability; interleavings are sampled. Miri uses Tree Borrows (Stacked Borrows rejects ThreadPool::new's Box move, see DESIGN).",
+    "floors": {"quick": {"operations_overlapping_another_thread": 20000, "exhaustive_spaces_completed": 3, "miri_executions_clean": 6},
+               "thorough": {"operations_overlapping_another_thread": 1000000, "exhaustive_spaces_completed": 4, "miri_executions_clean": 60}},
+    "coverage_extra": lambda c, t: {"exhaustive": False, "exhaustive_subspace": "sequential op sequences: (ids,len) in {(2,5),(3,4),(4,3)} quick / {(2,7),(3,5),(4,4),(5,3)} thorough"},
+    "assumptions": ["logical clock is one global SeqCst counter", "Miri: Tree Borrows, leaks ignored"],
+}
+PLANS["C19"] = {
+    "jobs": c19_jobs,
+    "packages": ("concmon",),
+    "engine": "concmon",
+    "parallel": 12,
+    "level": "exploration",
+    "rule": "seeded spawn trees (nested scopes, tasks spawning tasks, panics, depth-70 chains) on pools of 1-16 threads with per-task run counters and logical timestamps; ReadOptimizedLock torn-write / writer-overlap detectors; ConcurrentVec / ParallelVecWriter / NotificationList integrity scenarios; all natively with armed perturbation hooks and a logical deadlock detector on hook counters, and scaled down under Miri. distinct_nontrivial = distinct scenario parameterisations + clean Miri executions.",
+    "technique": "runtime monitors over event counters/timestamps (exactly-once, scope-wait, panic propagation, torn-write, conservation) under seeded schedule perturbation + logical deadlock detector + Miri UB/data-race interpreter",
+    "level_text": "Every scenario has a known finite amount of work; the monitor asserts exactly-once execution, completion before scope return (global logical clock), panic propagation, no torn read / no overlapping writers, all pushed / ranged-written / notified items present exactly once. Deadlock is decided logically (queue empty and every live job blocked in a scope wait, from hook counters), the wall-clock watchdog alone only yields inconclusive. Miri adds UB and data-race detection with weak-memory emulation.",
+    "level_note": "Interleavings are sampled (perturbation seeds, Miri seeds); unbounded liveness is restated as bounded progress.",
+    "floors": {"quick": {"tasks": 20000, "rol_writes": 5000, "miri_executions_clean": 8},
+               "thorough": {"tasks": 1000000, "rol_writes": 200000, "miri_executions_clean": 100}},
+    "assumptions": ["Miri: Tree Borrows, leaks ignored; pools are leaked (not dropped) inside Miri scenarios, drop is a separate witness"],
+}
+
 NOT_APPLICABLE = {}
